@@ -6,7 +6,8 @@
     shared by the members of a top-level union), ff1ad9d (_default_matches_schema looks at the
     definition of a reference, at the type of a dict member, excludes bool from the numeric
     types and is used for the dict form and for references too) and 10e3af8
-    (_keep_null_namespace).
+    (_keep_null_namespace), a7f0909 (decimal precision / scale: presence instead of truthiness,
+    booleans excluded).
     Modelled configuration: expand=False, _force=False, _ignore_default_error=False.
     [names] (the per-call redefinition set) and [named_schemas] (the caller's
     dictionary) are threaded explicitly as [pstate].  Exceptions are the
@@ -306,6 +307,10 @@ Definition floor_log10_pow2 (n : Z) : Z :=
   else (- (ilog10_from (Z.to_nat (- n)) 0 1 (2 ^ (- n)) + 1))%Z.
 Definition max_precision (size : Z) : Z := floor_log10_pow2 (8 * size - 1).
 
+(* "x is not None" and "isinstance(x, int) and not isinstance(x, bool)" (since a7f0909) *)
+Definition present (j : json) : bool := negb (is_jnull j).
+Definition as_jint (j : json) : option Z := match j with JInt z => Some z | _ => None end.
+
 Definition decimal_checks (parsed kv : list (string * json)) (ty : json) : pres unit :=
   match jget "logicalType" parsed with
   | Some (JStr lt) =>
@@ -313,14 +318,14 @@ Definition decimal_checks (parsed kv : list (string * json)) (ty : json) : pres 
       else
         let scale := match jget "scale" parsed with Some v => v | None => JNull end in
         let precision := match jget "precision" parsed with Some v => v | None => JNull end in
-        let+ _ := (if truthy scale then
-                     match as_pyint scale with
+        let+ _ := (if present scale then
+                     match as_jint scale with
                      | Some z => if Z.ltb z 0 then PErrParse else POk tt
                      | None => PErrParse
                      end
                    else POk tt) in
-        let+ _ := (if truthy precision then
-                     match as_pyint precision with
+        let+ _ := (if present precision then
+                     match as_jint precision with
                      | None => PErrParse
                      | Some p =>
                          if Z.leb p 0 then PErrParse
@@ -340,8 +345,8 @@ Definition decimal_checks (parsed kv : list (string * json)) (ty : json) : pres 
                               end
                      end
                    else POk tt) in
-        if truthy scale && truthy precision then
-          match as_pyint scale, as_pyint precision with
+        if present scale && present precision then
+          match as_jint scale, as_jint precision with
           | Some s, Some p => if Z.ltb p s then PErrParse else POk tt
           | _, _ => POk tt
           end
